@@ -146,12 +146,33 @@ def rng_events(trace):
 
 def run_both(cases, tag, release=False, model=True, timeout=600):
     """run the implementation, feed its generator log to the model, run the model"""
-    impl, iprob = run_sharded(harness_bin("release" if release else "debug"), cases, tag + ".impl", timeout=timeout)
+    hb = harness_bin("release" if release else "debug")
+    impl, iprob = run_sharded(hb, cases, tag + ".impl", timeout=timeout)
     if not model:
         return impl, {}, iprob, []
-    rng = {cid: rng_events(t) for cid, t in impl.items()}
-    rng = {k: v for k, v in rng.items() if v}
-    mod, mprob = run_sharded(model_bin(), cases, tag + ".model", with_rng=rng, timeout=timeout)
+
+    def run_model(cs, t):
+        rng = {c["id"]: rng_events(impl.get(c["id"], [])) for c in cs}
+        rng = {k: v for k, v in rng.items() if v}
+        return run_sharded(model_bin(), cs, t, with_rng=rng, timeout=timeout)
+    mod, mprob = run_model(cases, tag + ".model")
+    # The harness' per-case watchdog (4 s) can fire spuriously on a loaded machine.  Where the implementation was
+    # cut off by the watchdog but the model terminates, the HANG verdict is only believed after the case, run alone
+    # with a 60 s limit, still does not finish.
+    def model_ends(t):
+        return not (any(x == "END" and r.startswith("oof") for x, r in t) or any(x == "ABORT" for x, _ in t))
+    hung = [c for c in cases if any(t == "HANG" for t, _ in impl.get(c["id"], [])) and model_ends(mod.get(c["id"], []))]
+    if hung:
+        os.environ["VERIF_CASE_TIMEOUT_MS"] = "60000"
+        try:
+            for c in hung[:20]:
+                t1, _ = run_sharded(hb, [c], tag + ".rehang", timeout=200, nshards=1)
+                if c["id"] in t1:
+                    impl[c["id"]] = t1[c["id"]]
+        finally:
+            del os.environ["VERIF_CASE_TIMEOUT_MS"]
+        m2, _ = run_model(hung[:20], tag + ".remodel")
+        mod.update(m2)
     return impl, mod, iprob, mprob
 
 
